@@ -14,7 +14,7 @@ def inputs(ctx):
     c = enc.corpus()
     sel = [s for s in c if '@' in s or '/' in s or chr(92) in s]
     sel = sel[::2] if ctx.tier == 'quick' else sel
-    return encfloor.SPECIAL + encfloor.long_chain_cases() + sel
+    return encfloor.SPECIAL + encfloor.ring_digit_centres() + encfloor.long_chain_cases() + sel
 
 
 def floor(ctx):
@@ -28,3 +28,12 @@ RULE = ("163 hand-written special cases (stereo centres opening/closing rings in
 def replay_input(d):
     from harness import encfloor
     return encfloor.replay(d)
+
+
+def replay_known(ctx, k):
+    import selfies as sf
+    from harness import enc
+    sf.set_semantic_constraints(enc.relaxed_table())
+    r = enc.analyze(k['witness']['smiles'])
+    sf.set_semantic_constraints('default')
+    return any(c == 'C04:tetrahedral' for c, _ in r)
